@@ -270,11 +270,15 @@ fn one_case(cfg: &Cfg, grp: &str, case: u64, rng: &mut Rng, rep: &mut Report, sc
     let msgs: Vec<Msg> = (0..2).map(|w| if env.is_ckks() { Msg::Real(msg_real(n, w)) } else { Msg::Int(msg_int(n, kit.t(), w)) }).collect();
     let level_id = *kit.levels[level].parms_id();
     let mut src: Vec<[Ciphertext; 2]> = vec![]; // [coefficient form, ntt form]
+    // in every third case the first source is the noise-free ciphertext (x - x) + plain (c1 = 0 in every component): extraction
+    // and packing wrap, negate and shift c1, so exact zeros there are a structure random ciphertexts never have
+    let transparent = |w: usize| w == 0 && case % 3 == 2;
+    rep.count("source_structure", if transparent(0) { "first source transparent (c1 = 0)" } else { "fresh" });
     for (w, m) in msgs.iter().enumerate() {
         let r = lib(|| {
             let fresh = match m {
-                Msg::Real(v) => kit.enc.encrypt_new(&kit.ckks.as_ref().unwrap().encode_f64_polynomial_new(v, Some(level_id), scale)),
-                Msg::Int(v) => { let c = kit.enc.encrypt_new(&env.benc.as_ref().unwrap().encode_polynomial_new(v)); if level == 1 { kit.eval.mod_switch_to_next_new(&c) } else { c } }
+                Msg::Real(v) => { let p = kit.ckks.as_ref().unwrap().encode_f64_polynomial_new(v, Some(level_id), scale); let c = kit.enc.encrypt_new(&p); if transparent(w) { kit.eval.add_plain_new(&kit.eval.sub_new(&c, &c), &p) } else { c } }
+                Msg::Int(v) => { let p = env.benc.as_ref().unwrap().encode_polynomial_new(v); let c = kit.enc.encrypt_new(&p); let c = if transparent(w) { kit.eval.add_plain_new(&kit.eval.sub_new(&c, &c), &p) } else { c }; if level == 1 { kit.eval.mod_switch_to_next_new(&c) } else { c } }
             };
             if fresh.is_ntt_form() { [kit.eval.transform_from_ntt_new(&fresh), fresh] } else { let t = kit.eval.transform_to_ntt_new(&fresh); [fresh, t] }
         });
